@@ -26,7 +26,7 @@ P = {
          "DESIGN.md §5 C03"),
  "C04": (True, "E3-fault", "fault_enumeration",
          "fault injection at every storage call and server request of a sync + replica-invariant and converged-result oracles against a fault-free run",
-         "For each generated history the target sync is re-run once per storage call x {error, process stop} and per server request x {fail before effect, effect then lost reply} (plus random sequences of up to 3 consecutive faults, a multi-batch stratum and a SQLite stratum with reopen): after each fault the stored data must satisfy the replica invariant, the next sync must succeed within two attempts, and quiescence must reach the same state as the uninterrupted run.",
+         "For each generated history the target sync is re-run once per storage call x {error, process stop} and per server request x {fail before effect, effect then lost reply} (plus random sequences of up to 3 consecutive faults, a multi-batch stratum and a SQLite stratum with reopen): after each fault the stored data must satisfy the replica invariant, the next sync must succeed within two attempts, and quiescence must reach the same state as the uninterrupted run. An 'interleaved' stratum lets another replica write to the same properties and sync between the interrupted and the repeated sync; the result must equal one of the two fault-free orders.",
          "Process stop = future dropped at a storage call (SQLite: replica dropped and directory reopened); power loss not reachable. Liveness in bounded form (2 attempts).",
          "DESIGN.md §5 C04"),
  "C05": (True, "E1-history", "exploration",
@@ -36,8 +36,8 @@ P = {
          "DESIGN.md §5 C05"),
  "C06": (True, "E3-fault", "fault_enumeration",
          "crash injection (error / dropped future / child-process abort() at every storage call, abort() after commit, SIGKILL at random instants) + full-dump comparison through a fresh handle",
-         "Commit, undo, both rebuild modes and sync on a prepared SQLite replica are interrupted at every storage call index in-process and by abort() in a child process (and right after each commit returned); the directory is reopened through a fresh handle and its dump (tasks, unsynced operations, base version, working set, per-task logs) must equal the before-state, the after-state of a fault-free run on a byte copy, or a transaction boundary between. A second workload SIGKILLs a committing child at random instants and compares with the acknowledged commits.",
-         "Process death only (no power loss / torn pages). Sync and undo are two transactions; the state between them is an allowed boundary. Version ids chosen by the on-disk local server are normalised.",
+         "Commit, undo, both rebuild modes, sync and the first sync of a fresh replica (snapshot + later versions from an HTTP reference server) on a prepared SQLite replica are interrupted at every storage call index in-process and by abort() in a child process (and right after each commit returned); the directory is reopened through a fresh handle and its dump (tasks, unsynced operations, base version, working set, per-task logs) must equal the before-state, the after-state of a fault-free run on a byte copy, or (rebuild being a documented separate step) the after-state's tasks with the before-state's working set — nothing derived from the implementation's own commit calls. A second workload SIGKILLs a committing child at random instants and compares with the acknowledged commits.",
+         "Process death only (no power loss / torn pages). Version ids chosen by the on-disk local server are normalised.",
          "DESIGN.md §5 C06"),
  "C16": (True, "E4-differential", "exploration",
          "differential execution of both storage backends through the public StorageTxn trait + contract model + legacy-schema fixtures",
@@ -46,7 +46,7 @@ P = {
          "DESIGN.md §5 C16"),
  "C17": (True, "E5-stress", "exploration",
          "multi-thread / multi-process stress on one SQLite directory + post-hoc audit of per-commit result logs against the stored operation log",
-         "2-8 workers (threads, and child processes in a third of the rounds) with their own handles commit unique-id batches touching shared task rows, undo, rebuild and read concurrently; afterwards a fresh handle audits: every successful commit contiguously present exactly once (or removed whole by a logged successful undo), no trace of failed commits, replay(stored log) == stored tasks, working set exactly the pending set without duplicates, readers only saw states at commit boundaries.",
+         "2-8 workers (threads, and child processes in a third of the rounds) with their own handles commit unique-id batches touching shared task rows (incl. status flips of shared tasks), undo, rebuild and read concurrently; a ws-race stratum lets 3-7 handles turn the same 40 unlisted tasks pending at barrier-synchronised moments; afterwards a fresh handle audits: every successful commit contiguously present exactly once (or removed whole by a logged successful undo), no trace of failed commits, replay(stored log) == stored tasks, working set exactly the pending set without duplicates, readers only saw states at commit boundaries.",
          "Schedules are those the OS produces. Workload restricted to operations whose validity cannot be invalidated by other handles (DESIGN §5a). Starts on an initialised directory.",
          "DESIGN.md §5 C17"),
  "C12": (True, "E1-history", "exploration",
@@ -56,12 +56,12 @@ P = {
          "DESIGN.md §5 C12"),
  "C13": (True, "E6-adversarial", "exploration",
          "runtime monitor against an independent pure-Python AEAD (RFC 8439 + hashlib PBKDF2): exhaustive single-byte tamper / truncation sweeps through the seal hook, and inspection + tampering of what each remote backend actually stores",
-         "Every sealed value produced through the hook is checked for the documented form (format byte 1, never-repeated nonce), opened by the independent reference to the exact plaintext, and values sealed by the reference open in the crate; every single-byte change (4 patterns per position), every truncation, an extension and every secret/salt/version-id mismatch must be rejected. What the HTTP client, the object-store server and the git backend really store (request bodies, objects, files and git objects) must open in the reference with the documented salt and AAD, contain no planted task content, and flipping / truncating / swapping / relabelling it must make the Server call fail rather than return data.",
+         "Every sealed value produced through the hook is checked for the documented form (format byte 1, never-repeated nonce), opened by the independent reference to the exact plaintext, and values sealed by the reference open in the crate; every single-byte change (4 patterns per position), every truncation, an extension and every secret/salt/version-id mismatch must be rejected. What the HTTP client, the object-store server and the git backend really store (request bodies, objects, files and git objects) must open in the reference with the documented salt and AAD, contain no planted task content, and flipping / truncating / swapping / relabelling it must make the Server call fail rather than return data. Two object-store clients racing to create the salt are enumerated under every schedule and must afterwards read each other's data.",
          "Oracle = tools/sealed_ref.py, self-tested on RFC vectors at each invocation. Nonce randomness is observed only as 'never repeated, not a counter'. Object store = hook's in-memory Service; HTTP = harness reference server.",
          "DESIGN.md §5 C13"),
  "C14": (True, "E1-history", "exploration",
          "runtime monitor: strict wire-format validator at the Server boundary + hand-written documents replayed against the reference model",
-         "Every history segment a replica hands to the Server trait is validated strictly (keys, types, uuid and timestamp syntax, no extra fields), compared in order and content with the committed operations, and scanned for markers planted in undo-only data; conversely thousands of hand-written documents (other field orders, whitespace, escapes, timestamp precisions, invalid-but-well-formed operations) are applied by a fresh replica and compared with the reference model.",
+         "Every history segment a replica hands to the Server trait is validated strictly (keys, types, uuid and timestamp syntax, no extra fields), compared in order and content with the committed operations, and scanned for markers planted in undo-only data, also when a foreign version lands right before the n-th add_version of a multi-batch sync (rejection in mid-sync: nothing sent may be rewritten or reordered on disjoint tasks); conversely thousands of hand-written documents (other field orders, whitespace, escapes, timestamp precisions, invalid-but-well-formed operations) are applied by a fresh replica and compared with the reference model.",
          "The {\"operations\":[...]} wrapper is treated as normative (the book shows a bare array). Hand-written documents stay inside the documented grammar.",
          "DESIGN.md §5 C14"),
  "C07": (True, "E1-history", "exploration",
@@ -86,7 +86,7 @@ P = {
          "DESIGN.md §5 C09"),
  "C10": (True, "E2-schedule", "exploration",
          "runtime monitor under the request-level scheduler with fault (stop-after-deletion) injection + deletion audit, retrieval walk and real-replica reconstruction oracles",
-         "Cleanup (explicit, or arising naturally from two racing adders) is interleaved at single-request and list-page granularity with add_version / add_snapshot / a second cleanup over layouts of 0-12 versions with snapshots, ages around the retention threshold and stray objects, and is stopped after every possible number of deletions. After each schedule: every deletion must fall in a permitted class, the chain from the newest retained on-chain snapshot (or nil) to latest must be retrievable byte-for-byte, retained versions must form an unbroken suffix, a real fresh replica must reconstruct the state, and add_version(latest) must still be accepted.",
+         "Cleanup (explicit, or arising naturally from two racing adders) is interleaved at single-request and list-page granularity with add_version / add_snapshot / add_version-then-snapshot-of-that-version / a second cleanup over layouts of 0-12 versions with snapshots, ages around the retention threshold and stray objects, and is stopped after every possible number of deletions. After each schedule: every deletion must fall in a permitted class, the chain from the newest retained on-chain snapshot (or nil) to latest must be retrievable byte-for-byte, retained versions must form an unbroken suffix, a real fresh replica must reconstruct the state, and add_version(latest) must still be accepted.",
          "In-memory Service with controllable creation clock. Removing a newer snapshot in favour of an older retained on-chain one is recorded, not alarmed.",
          "DESIGN.md §5 C10"),
  "C15": (True, "E1-history", "exploration",
@@ -101,12 +101,12 @@ P = {
          "DESIGN.md §5 C18"),
  "C19": (True, "E1-history", "exploration",
          "runtime monitor: documented-effect model of every mutator + old-value shadow replay + independent synthetic-tag/dependency-map computation",
-         "Random sequences over all public Task and TaskData mutators (incl. reserved names, synthetic and invalid tags, all UDA API generations) across commit/reload cycles; after every call the Task the caller holds must equal the documented effect, every recorded Update's old value must equal the shadow map, commits must store exactly the held task, the end/modified rules must hold, and synthetic tags / dependency map must equal an independent computation from the stored data.",
+         "Random sequences over all public Task and TaskData mutators (incl. reserved names, synthetic and invalid tags, all UDA API generations) across commit/reload cycles; after every call the Task the caller holds must equal the documented effect, every recorded Update's old value must equal the shadow map, commits must store exactly the held task, the end/modified rules must hold, synthetic tags / dependency map must equal an independent computation from the stored data, and the cached dependency map must equal a forced rebuild after every commit (incl. purges).",
          "Session = lifetime of one Task value; dependency map compared after dependency_map(true) and a non-renumbering rebuild; clock-derived values judged by a wall-clock window.",
          "DESIGN.md §5 C19"),
  "C20": (True, "E1-history", "exploration",
          "runtime monitor: independent expiry predicate over a complete status x modified dictionary; multi-replica purge histories with concurrent edits",
-         "expire_tasks is judged by an independent predicate on every status x boundary `modified` value (both storages) and in multi-replica histories where other replicas edit the tasks concurrently: the purge must be recorded and sent as plain Delete operations and the task must be gone on every replica after syncing in a random order.",
+         "expire_tasks is judged by an independent predicate on every status x boundary `modified` value (both storages) and in multi-replica histories where other replicas edit the tasks concurrently: the purge must be recorded and sent as plain Delete operations and the task must be gone on every replica after syncing in a random order — also when expiration empties a replica completely and the server holds a snapshot.",
          "No clock hook: tasks inside the window swept by the clock during the call are excluded (boundary cases sit ±5 s outside it).",
          "DESIGN.md §5 C20"),
 }
